@@ -405,7 +405,13 @@ def muldiv_case(draw):
     if op in ("mul", "rmul", "imul", "mul_out") and not k["imag"] and k["kind"] in ("pyfloat", "npfloat", "arr0", "pycomplex_real", "npcomplex_real") \
             and draw(st.integers(0, 3)) == 0:
         k["vals"] = [draw(st.sampled_from([2.0**-50, -(2.0**-45), 1e-15, 3e-14, 2.0**-30]))]  # a tiny factor is a factor all the same
-    return {"p": p, "k": k, "op": op, "lg": lg}
+    return {"p": p, "k": k, "op": op, "lg": lg, "failed_first": draw(st.sampled_from([None, None, "imul_imag", "imul_real", "idiv_imag", "iadd_shape"]))}
+
+
+def pb_phase_like(arr):
+    import pulsarbat as pb
+
+    return pb.Phase(np.real(arr) * 0.0, np.real(arr) * 0.125)
 
 
 def run_muldiv(case, stt):
@@ -414,6 +420,26 @@ def run_muldiv(case, stt):
     k = mk_number(ks)
     kex, kshape = number_exact(ks)
     pex = O.phase_fractions(p)
+    ff = case.get("failed_first")
+    if ff:
+        # a FAILED in-place call first (an operand whose shape does not broadcast into the phase): it raises, and leaves the phase exactly as it
+        # was -- values and real/imaginary kind -- so that the valid call that follows means what it says
+        before = (p.view(np.ndarray).copy(), bool(p.imaginary))
+        bad = np.ones(tuple(ps["shape"]) + (3,) if ps["shape"] else (3,)) * (1j if ff.endswith("imag") else 1.0)
+        try:
+            if ff.startswith("imul"):
+                p *= bad
+            elif ff.startswith("idiv"):
+                p /= bad
+            else:
+                p += pb_phase_like(bad)
+            raised = False
+        except Exception:
+            raised = True
+        check(raised, "an in-place operation whose operand of shape {} cannot broadcast into a phase of shape {} did not raise", bad.shape, tuple(ps["shape"]))
+        check(np.array_equal(p.view(np.ndarray), before[0]) and bool(p.imaginary) == before[1], "a failed in-place {} left the phase changed: imaginary {} -> {}",
+              ff, before[1], bool(p.imaginary))
+        stt.label("failed_call_first")
     op = case["op"]
     if op in ("div", "idiv"):
         # keep |result| <= 2^52: divisor magnitude >= 2^-lg... choose counts accordingly (counts are < 2^(51-lg), |k| >= 2^-12)
